@@ -744,8 +744,36 @@ def gen_par_jobs(seed, njobs, family, nrounds=3):
     rng = random.Random(seed)
     jobs = []
     base = {"pardag": "dur", "parfix": "fix", "parfb": "fb", "parpcycle": "pcycle", "parintern": "churn",
-            "parstruct": "struct", "parcancel": "dur", "parwrite": "dur", "parwritefix": "fix", "parcancelfix": "fix", "parpanic": "dur", "parmemo": "struct"}[family]
+            "parstruct": "struct", "parcancel": "dur", "parwrite": "dur", "parwritefix": "fix", "parcancelfix": "fix", "parpanic": "dur", "parmemo": "struct", "paralloc": "struct"}[family]
     for n in range(njobs):
+        if family == "paralloc":
+            # C24: concurrent creation of inputs, interned values and tracked structs across page boundaries (128 slots)
+            nmany = rng.choice([2, 3, 4])
+            prog = {"nv": 2, "inputs": [[[0, 0], [0, 0]]], "cells": [],
+                    "fns": [{"kind": "many", "init": 0, "fwd": 0, "nodes": [node("ret", 0)]} for _ in range(nmany)],
+                    "sfns": [{"kind": "splain", "init": 0, "nodes": [node("ret", 0)]}] * 2 + [{"kind": "sspec", "init": 0, "nodes": [node("ret", 0)]}],
+                    "ifns": [{"kind": "iplain", "init": 0, "nodes": [node("ret", 0)]}], "lru_cap": 2}
+            rounds = []
+            base = 0
+            for r in range(nrounds):
+                nthreads = rng.choice([2, 3, 4])
+                threads = []
+                for t in range(nthreads):
+                    ops = []
+                    for _ in range(rng.choice([2, 3])):
+                        c = rng.random()
+                        if c < 0.45:
+                            ops.append({"op": "mkin", "k": rng.choice([30, 70, 140]), "v": r * 10 + t + 1})
+                        elif c < 0.7:
+                            ops.append({"op": "mkint", "k": rng.choice([40, 140]), "v": base})
+                            base += rng.choice([20, 140])       # overlapping ranges: the same value interned by two threads
+                        else:
+                            ops.append({"op": "get", "f": rng.randrange(nmany) + 1})
+                    threads.append(ops)
+                rounds.append({"pre": [], "threads": threads, "writer": [], "cancels": [], "writer_after": 0})
+            jobs.append({"id": n + 1, "prog": prog, "hist": [], "inject": 0, "seed": seed * 100003 + n, "mode": family,
+                         "rounds": rounds, "jitter": rng.choice([0, 5, 30])})
+            continue
         if family == "parmemo":
             # several tracked functions keyed on the same (fresh) struct instance, first executed concurrently
             # the creator makes 1..4 structs depending on two input bits; every round adds a fresh instance
